@@ -1,0 +1,29 @@
+//go:build verif
+
+// Contracts for govc (contract-based deductive verification, /verif). Comment-only file:
+// it is compiled only under the build tag "verif" and contains no code.
+
+package bfe_route
+
+//@ package_invariant[sentinel_errors] ErrNoProductRule != nil && ErrNoMatchRule != nil
+
+//@ func (*HostTable).LookupCluster
+//@   props C12
+//@   nopanic
+//@   requires t != nil && req != nil && req.HttpRequest != nil
+//@   requires forall p string :: has(t.productBasicRouteTree, p) ==> t.productBasicRouteTree[p] != nil
+//@   requires forall k int :: 0 <= k && k < len(t.productAdvancedRouteTable[req.Route.Product]) ==> t.productAdvancedRouteTable[req.Route.Product][k].Cond != nil
+//@   note every loaded advanced rule is assumed to carry a built (non-nil) condition, as the rule loader produces
+//@   modifies req.Route.ClusterName, req.Route.Error
+//@   let product := req.Route.Product
+//@   let tree := t.productBasicRouteTree[product]
+//@   let host := firstField(req.HttpRequest.Host, ":")
+//@   let path := (req.HttpRequest.URL != nil ? req.HttpRequest.URL.Path : "")
+//@   let basicHit := has(t.productBasicRouteTree, product) && basicFound(tree, host, path) && basicName(tree, host, path) != "ADVANCED_MODE"
+//@   let rules := t.productAdvancedRouteTable[product]
+//@   ensures[basic_rule_naming_a_real_cluster_wins] basicHit ==> result0 == nil && req.Route.ClusterName == basicName(tree, host, path)
+//@   ensures[no_advanced_table_is_an_error] !basicHit && !has(t.productAdvancedRouteTable, product) ==> result0 != nil && req.Route.ClusterName == ""
+//@   ensures[first_matching_advanced_rule_in_configured_order] !basicHit && result0 == nil ==> (exists k int :: 0 <= k && k < len(rules) && condMatch(rules[k].Cond, req) && req.Route.ClusterName == rules[k].ClusterName && (forall j int :: 0 <= j && j < k ==> !condMatch(rules[j].Cond, req)))
+//@   ensures[no_matching_rule_is_an_error_and_names_no_cluster] !basicHit && (forall k int :: 0 <= k && k < len(rules) ==> !condMatch(rules[k].Cond, req)) ==> result0 != nil && req.Route.ClusterName == ""
+//@   ensures[error_names_no_cluster] result0 != nil ==> req.Route.ClusterName == "" && req.Route.Error == result0
+//@   loop 1 invariant[no_earlier_rule_matched] clusterName == "" && (forall j int :: 0 <= j && j <= rangeindex ==> !condMatch(rules[j].Cond, req))
